@@ -11,6 +11,7 @@ import (
 	"sync"
 	"time"
 
+	"github.com/gorilla/websocket"
 	"github.com/vektah/gqlparser/v2"
 	"github.com/vektah/gqlparser/v2/ast"
 
@@ -60,6 +61,76 @@ func transportGoroutines() []string {
 		}
 	}
 	return out
+}
+
+// websocketEndings: websocket connections that end before, at and after the handshake (silent client with an init
+// timeout, client that leaves, a finished subscription): nothing of the transport may stay behind.
+func websocketEndings(meta *gen.Meta) int {
+	es := &graphql.ExecutableSchemaMock{
+		SchemaFunc: func() *ast.Schema { return tSchema },
+		ComplexityFunc: func(ctx context.Context, typeName, fieldName string, childComplexity int, args map[string]any) (int, bool) {
+			return 0, false
+		},
+		ExecFunc: func(ctx context.Context) graphql.ResponseHandler {
+			return graphql.OneShot(&graphql.Response{Data: json.RawMessage(`{"a":"x"}`)})
+		},
+	}
+	n := 0
+	for _, sc := range []string{"silent client, init timeout", "client leaves before init", "init then leave", "one operation then leave"} {
+		for _, proto := range []string{"graphql-ws", "graphql-transport-ws"} {
+			n++
+			srv := handler.New(es)
+			srv.AddTransport(transport.Websocket{InitTimeout: 25 * time.Millisecond, KeepAlivePingInterval: 5 * time.Millisecond,
+				Upgrader: websocket.Upgrader{CheckOrigin: func(r *http.Request) bool { return true }}})
+			ts := httptest.NewServer(srv)
+			conn, _, err := (&websocket.Dialer{Subprotocols: []string{proto}}).Dial("ws"+strings.TrimPrefix(ts.URL, "http"), nil)
+			if err != nil {
+				ts.Close()
+				continue
+			}
+			readAll := func(d time.Duration) {
+				_ = conn.SetReadDeadline(time.Now().Add(d))
+				for {
+					if _, _, err := conn.ReadMessage(); err != nil {
+						return
+					}
+				}
+			}
+			switch sc {
+			case "silent client, init timeout":
+				readAll(500 * time.Millisecond) // the server closes after the init timeout
+			case "client leaves before init":
+				time.Sleep(5 * time.Millisecond)
+			case "init then leave":
+				_ = conn.WriteMessage(websocket.TextMessage, []byte(`{"type":"connection_init"}`))
+				time.Sleep(10 * time.Millisecond)
+			case "one operation then leave":
+				_ = conn.WriteMessage(websocket.TextMessage, []byte(`{"type":"connection_init"}`))
+				start := `{"type":"start","id":"1","payload":{"query":"{ a }"}}`
+				if proto == "graphql-transport-ws" {
+					start = `{"type":"subscribe","id":"1","payload":{"query":"{ a }"}}`
+				}
+				_ = conn.WriteMessage(websocket.TextMessage, []byte(start))
+				time.Sleep(15 * time.Millisecond)
+			}
+			_ = conn.Close()
+			var left []string
+			for t := 0; t < 60; t++ {
+				if left = transportGoroutines(); len(left) == 0 {
+					break
+				}
+				time.Sleep(5 * time.Millisecond)
+			}
+			ts.Close()
+			if len(left) > 0 {
+				meta.Direct = append(meta.Direct, gen.DirectFinding{Signature: "websocket-transport-leaves-goroutines",
+					What:   fmt.Sprintf("websocket (%s), %s: %d goroutine(s) of the transport still alive 300 ms after the connection ended: %v", proto, sc, len(left), left),
+					Replay: map[string]any{"subprotocol": proto, "scenario": sc, "goroutines": left}})
+				return n
+			}
+		}
+	}
+	return n
 }
 
 // streamingTransports: the streaming HTTP transports in front of an operation that ends (1..3 payloads), keep-alive /
